@@ -114,23 +114,27 @@ fn range_step_backwards(
     step: usize,
     end: usize,
 ) -> impl Iterator<Item = usize> {
-    let start = match start {
-        None => end.saturating_sub(1),
-        Some(start) if start >= end as i64 => end.saturating_sub(1),
-        Some(start) if start >= 0 => start as usize,
-        Some(start) => (end as i64 + start).max(0) as usize,
+    // Python semantics for a negative step: bounds are clamped into
+    // `-1..=end - 1`, where -1 stands for "before the first element".
+    let end = end as i64;
+    let clamp = |idx: i64| -> i64 {
+        if idx < 0 {
+            (idx + end).max(-1)
+        } else {
+            idx.min(end - 1)
+        }
     };
-    let stop = match stop {
-        None => 0,
-        Some(stop) if stop < 0 => (end as i64 + stop).max(0) as usize,
-        Some(stop) => stop as usize,
-    };
-    let length = if stop == 0 {
-        (start + step) / step
+    let start = start.map_or(end - 1, clamp);
+    let stop = stop.map_or(-1, clamp);
+    let length = if start > stop {
+        ((start - stop) as usize + (step - 1)) / step
     } else {
-        (start - stop + step - 1) / step
+        0
     };
-    (stop..=start).rev().step_by(step).take(length)
+    (0..=start.max(0) as usize)
+        .rev()
+        .step_by(step)
+        .take(length)
 }
 
 pub fn slice(value: Value, start: Value, stop: Value, step: Value) -> Result<Value, Error> {
@@ -178,7 +182,7 @@ pub fn slice(value: Value, start: Value, stop: Value, step: Value) -> Result<Val
             } else {
                 let chars: Vec<char> = s.chars().collect();
                 Ok(Value::from(
-                    range_step_backwards(start, stop, -step as usize, chars.len())
+                    range_step_backwards(start, stop, step.unsigned_abs() as usize, chars.len())
                         .map(move |i| chars[i])
                         .collect::<String>(),
                 ))
@@ -197,7 +201,7 @@ pub fn slice(value: Value, start: Value, stop: Value, step: Value) -> Result<Val
                 ))
             } else {
                 Ok(Value::from_bytes(
-                    range_step_backwards(start, stop, -step as usize, b.len())
+                    range_step_backwards(start, stop, step.unsigned_abs() as usize, b.len())
                         .map(|i| b[i])
                         .collect::<Vec<u8>>(),
                 ))
@@ -219,7 +223,7 @@ pub fn slice(value: Value, start: Value, stop: Value, step: Value) -> Result<Val
                         .step_by(step as usize)
                         .collect()
                 } else {
-                    range_step_backwards(start, stop, -step as usize, values.len())
+                    range_step_backwards(start, stop, step.unsigned_abs() as usize, values.len())
                         .map(|idx| values[idx].clone())
                         .collect()
                 };
@@ -241,7 +245,7 @@ pub fn slice(value: Value, start: Value, stop: Value, step: Value) -> Result<Val
                     if let Some(iter) = obj.try_iter() {
                         let vec: Vec<Value> = iter.collect();
                         Box::new(
-                            range_step_backwards(start, stop, -step as usize, vec.len())
+                            range_step_backwards(start, stop, step.unsigned_abs() as usize, vec.len())
                                 .map(move |i| vec[i].clone()),
                         )
                     } else {
